@@ -152,8 +152,19 @@ def ensure_built(jobs=16, timeout=3000, quiet=True):
         lock.close()
 
 
-def coqc_file(path, timeout=600, mem_unlimited_stack=True):
-    """compile one generated file (cwd = coq/), return (rc, output)"""
+class _shared_lock:
+    """readers of the compiled project (re-check of a props file, case files) exclude a concurrent rebuild"""
+    def __enter__(self):
+        self.f = open(os.path.join(COQ, '.build.lock'), 'a')
+        fcntl.flock(self.f, fcntl.LOCK_SH)
+        return self
+
+    def __exit__(self, *a):
+        fcntl.flock(self.f, fcntl.LOCK_UN)
+        self.f.close()
+
+
+def _coqc(path, timeout):
     cmd = 'ulimit -s unlimited 2>/dev/null; exec timeout %d coqc %s %s' % (
         timeout, ' '.join(QFLAGS), os.path.relpath(path, COQ))
     p = subprocess.run(['bash', '-c', cmd], cwd=COQ, stdout=subprocess.PIPE,
@@ -161,11 +172,18 @@ def coqc_file(path, timeout=600, mem_unlimited_stack=True):
     return p.returncode, p.stdout
 
 
+def coqc_file(path, timeout=600, mem_unlimited_stack=True):
+    """compile one generated file (cwd = coq/), return (rc, output)"""
+    with _shared_lock():
+        return _coqc(path, timeout)
+
+
 def run_cases(paths, jobs=16, timeout=600):
     """compile case files in parallel; returns {path: (rc, output)}"""
     from concurrent.futures import ThreadPoolExecutor
-    with ThreadPoolExecutor(max_workers=jobs) as ex:
-        res = list(ex.map(lambda p: coqc_file(p, timeout), paths))
+    with _shared_lock():
+        with ThreadPoolExecutor(max_workers=jobs) as ex:
+            res = list(ex.map(lambda p: _coqc(p, timeout), paths))
     for p in paths:  # case files are scratch: drop compiled output
         base = p[:-2]
         for ext in ('.vo', '.vok', '.vos', '.glob'):
